@@ -109,7 +109,9 @@ func c06Run(c c06Case) []mc.Finding {
 	if c.Kind == "Widget" {
 		k = kit.Widget
 	}
-	o := ccOpt{parent: kit.Thing, children: []*sim.Kind{k}, generateSel: true}
+	// (a second child kind without any strategy is declared FIRST: the strategy of a kind must not depend on the
+	// rules listed before it)
+	o := ccOpt{parent: kit.Thing, children: []*sim.Kind{kit.Gadget, k}, generateSel: true}
 	if c.Method != "<unset>" {
 		o.methods = map[string]v1alpha1.ChildUpdateMethod{k.Resource: v1alpha1.ChildUpdateMethod(c.Method)}
 	}
